@@ -6,14 +6,18 @@
    Structure
    * loops: one lemma per loop shape, by induction on the list, generic in the loop body [body] under a
      hypothesis that says what [body] does in one iteration (for_ctl_fold: the outer loops and the removal loop
-     are folds of the model's step function; scan_any / any_existsb: the similarity scan is [existsb];
-     scan_loop + scan_ctl_spec: the inner loop of ParetoFront.update is [pf_scan]);
+     are folds of the model's step function; scan_any / scan_any_idx / any_existsb: the similarity scan -- as
+     for/else over the members, over their positions, or as any(...) -- is [existsb]; scan_loop / scan_loop_idx +
+     scan_ctl_spec: the inner loop of ParetoFront.update -- over enumerate(self) or over range(len(self)) -- is
+     [pf_scan]; rem_loop_h: the removal loop at the heap level);
    * [crush]: decides  lhs = rhs  between two programs by case analysis on what the programs themselves
      inspect, in execution order, after the calls of the other regenerated methods have been rewritten with
      their own equivalence lemmas and the loops with the loop lemmas.  It does not depend on the names of
      locals, on subexpressions being named or inlined, on `if`/`else` nesting against `continue`, on reads of
      the archive being repeated or shared, or on the order of independent statements that commute in the world
-     at hand; changed comparisons, indices, constants or a changed order of effects do not go through. *)
+     at hand, or on index arithmetic written differently (align: linear arithmetic); changed comparisons, indices,
+     constants or a changed order of effects do not go through.  The proofs are state by state: they cannot use
+     invariants of reachable archives. *)
 From Coq Require Import List ZArith Bool Lia.
 From DV Require Import Base.PyTuple Base.PyList Model.C08_Archive Model.C08_Heap Model.C08_GenRt Gen.C08_gen
   Model.C08_GenApi.
